@@ -528,8 +528,18 @@ pub fn run_trace(cfg: &Cfg, real_delay: bool) -> Vec<String> {
             // a bounce runs the software factory at once: in the second run real time is pushed
             // beyond the virtual time the host has consumed, so a clock read there that mixes in
             // the wall clock shows
-            if real_delay && matches!((cfg.script, k), (3, 11) | (4, 5) | (4, 15)) {
-                std::thread::sleep(Duration::from_millis(cfg.tick_ms * (k as u64 + 1) + 2));
+            // (a runtime re-created by the crash at step 6 has consumed no virtual time; the one
+            // of h0 five ticks; at step 15 the earlier pauses count as well)
+            if real_delay {
+                let ms = match (cfg.script, k) {
+                    (3, 11) => 2,
+                    (4, 5) => cfg.tick_ms * 5 + 1,
+                    (4, 15) => cfg.tick_ms * 10 + 1,
+                    _ => 0,
+                };
+                if ms > 0 {
+                    std::thread::sleep(Duration::from_millis(ms));
+                }
             }
             // controller script
             match (cfg.script, k) {
